@@ -2143,6 +2143,13 @@ def median(x, axis=None):
         # numpy: mean of the two middle timedeltas (integer division toward -inf on the ns count; whole seconds
         # make (lo+hi)*1e9/2 exact in ns, but the result may be a half second)
         tot = lo + hi
+        u = _unit(x._dt)
+        if u not in _UNIT_PER_S or u == "s":
+            # seconds or coarser: the mean of the two middle values is taken on the integer count in that unit (floor)
+            k = 1 if u == "s" else _S_PER_UNIT.get(u)
+            if k is None:
+                raise Unsupported(f"median of timedelta64[{u}]")
+            return _DeltaScalar(SDelta((tot / (2 * k)) * k, nanf), x._dt)
         half = mk_not(mk_eq(tot - 2 * (tot / 2), z3.IntVal(0)))
         return _DeltaScalar(SDelta(tot / 2, nanf), x._dt, half=half)
     if k == "f":
@@ -2547,6 +2554,10 @@ def cumsum(a, axis=None):
 
 def flatnonzero(a):
     return where(asarray(a).flatten() if not isinstance(a, ndarray) else a.flatten())[0]
+
+
+def datetime_data(dt):
+    return _np.datetime_data(dtype(dt))
 
 
 def extract(condition, arr):
